@@ -98,8 +98,8 @@ func c02FixedSchema() *xSchema {
 	pool("if0", xNamed("I0"))
 	s.Types = append(s.Types,
 		&xType{Name: "I0", Kind: "interface", Fields: []string{"a"}},
-		&xType{Name: "O0", Kind: "object", Fields: []string{"a", "b", "i"}, Ifaces: []string{"I0"}},
-		&xType{Name: "O1", Kind: "object", Fields: []string{"a", "b", "ni"}, Ifaces: []string{"I0"}},
+		&xType{Name: "O0", Kind: "object", Fields: []string{"a", "b", "i", "o"}, Ifaces: []string{"I0"}},
+		&xType{Name: "O1", Kind: "object", Fields: []string{"a", "b", "ni", "o"}, Ifaces: []string{"I0"}},
 		&xType{Name: "Q", Kind: "object", Fields: []string{"a", "b", "i", "fa", "o", "if0"}},
 		&xType{Name: "M", Kind: "object", Fields: []string{"a"}})
 	return s
@@ -741,7 +741,13 @@ func c02Mutate(m string, r *Rng, d *ast.Document, xs *xSchema) bool {
 			return ast.NewObjectValue(&ast.ObjectValue{Fields: fs})
 		}
 		var v ast.Value
-		switch r.Intn(3) {
+		switch r.Intn(5) {
+		case 3:
+			// the duplicate pair straddles a nested literal
+			v = ast.NewObjectValue(&ast.ObjectValue{Fields: []*ast.ObjectField{mk("x", c02Str("s")), mk("in", in0(false)), mk("x", c02Str("t"))}})
+		case 4:
+			// a nested literal's field name reused by the enclosing one afterwards (no duplicate)
+			v = ast.NewObjectValue(&ast.ObjectValue{Fields: []*ast.ObjectField{mk("in", ast.NewObjectValue(&ast.ObjectValue{Fields: []*ast.ObjectField{mk("b", c02Int(1)), mk("a", c02Int(2))}})), mk("x", c02Str("t"))}})
 		case 0:
 			v = ast.NewObjectValue(&ast.ObjectValue{Fields: []*ast.ObjectField{mk("in", in0(false)), mk("ins", ast.NewListValue(&ast.ListValue{Values: []ast.Value{in0(false), in0(true)}}))}})
 		case 1:
@@ -1093,6 +1099,13 @@ func genC02(tier string, seed uint64, n int, e *Emitter) {
 		"query A { a } query A { b }",
 		"{ ...F } fragment F on Q { o { ...F } }",
 		"{ ...A } fragment A on Q { ...B } fragment B on Q { ...A }",
+		// one (field set, fragment) pair compared first under mutually exclusive parents, then under non-exclusive ones
+		"query A { if0 { ... on O0 { w: o { ...FA } } ... on O1 { w: o { ...FB } } } } query B { ...FA ...FB } fragment FA on Q { k: o { x: a } } fragment FB on Q { k: o { ...F } } fragment F on Q { x: b }",
+		// the same for a pair of fragments
+		"query A { if0 { ... on O0 { w: o { ...FA } } ... on O1 { w: o { ...FB } } } } query B { ...FA ...FB } fragment FA on Q { x: a } fragment FB on Q { x: b }",
+		"query A { if0 { ... on O0 { w: o { ...FA } } ... on O1 { w: o { ...FB } } } } query B { ...FB ...FA } fragment FA on Q { x: a ...FC } fragment FB on Q { ...FC y: a } fragment FC on Q { y: b }",
+		// input objects: duplicates around and inside nested literals
+		"{ fa(n: 1) }",
 	} {
 		c02Emit(e, fixed, q, "corpus", []string{"corpus"})
 	}
@@ -1203,7 +1216,7 @@ func c02Sweep(e *Emitter, sc *c02Schema, limit int, seed uint64) {
 	for _, t := range topos {
 		for s1 := 0; s1 <= t.k; s1++ {
 			for s2 := s1; s2 <= t.k; s2++ {
-				for _, nested := range []bool{false, true} {
+				for _, nested := range []int{0, 1, 2} {
 					idx++
 					if limit < 1<<29 && r.Intn(40) != 0 {
 						continue
@@ -1229,9 +1242,33 @@ func c02Sweep(e *Emitter, sc *c02Schema, limit int, seed uint64) {
 						return sb.String()
 					}
 					var sb strings.Builder
-					if nested {
+					switch nested {
+					case 1:
 						sb.WriteString("{ o {" + body(0) + " } }")
-					} else {
+					case 2:
+						// the root's content split over two fields with one response key
+						left, right := "", ""
+						if s1 == 0 {
+							left += " " + p[0]
+						}
+						if s2 == 0 {
+							right += " " + p[1]
+						}
+						for gi, g := range t.spread[0] {
+							if gi%2 == 0 {
+								left += fmt.Sprintf(" ...F%d", g)
+							} else {
+								right += fmt.Sprintf(" ...F%d", g)
+							}
+						}
+						if left == "" {
+							left = " __typename"
+						}
+						if right == "" {
+							right = " __typename"
+						}
+						sb.WriteString("{ o {" + left + " } o {" + right + " } }")
+					default:
 						sb.WriteString("{" + body(0) + " }")
 					}
 					for i := 1; i <= t.k; i++ {
